@@ -97,6 +97,30 @@ def _scipy_uv(N):
     return (U, V)
 
 
+def _double_exact(num, den, series, N):
+    """the order conditions hold when every literal is read as the double Python computes with: the residual coefficients r_k =
+    num_k - sum_j den_j * series_{k-j}, k <= 2N, are within the rounding of the literals (2^-52 relative per coefficient).
+    A table retyped with 17 significant digits is the same program; a table with a wrong digit is not."""
+    x = F.sym("x")
+    sub = {"h": F.const(1), "s": F.const(0)}
+    try:
+        num, den, series = (F._R(v).subs(sub) for v in (num, den, series))
+        if not (num.d.is_const() and den.d.is_const() and series.d.is_const()):
+            return False
+        cn = {k: (v.const_value() / num.d.const_value()) for k, v in F.coeffs_in(num.n, "x").items()}
+        cd = {k: (v.const_value() / den.d.const_value()) for k, v in F.coeffs_in(den.n, "x").items()}
+        cs = {k: (v.const_value() / series.d.const_value()) for k, v in F.coeffs_in(series.n, "x").items()}
+    except Exception:  # noqa  (a coefficient that is not a number)
+        return False
+    eps = Fraction(1, 2 ** 52)
+    for k in range(2 * N + 1):
+        r = cn.get(k, 0) - sum(cd.get(j, 0) * cs.get(k - j, 0) for j in range(k + 1))
+        bound = eps * (abs(cn.get(k, 0)) + sum(abs(cd.get(j, 0) * cs.get(k - j, 0)) for j in range(k + 1)))
+        if abs(r) > bound:
+            return False
+    return True
+
+
 def _check_exp(ctx, tag, where, U, V, N):
     try:
         U, V = need(U, f"{tag} U"), need(V, f"{tag} V")
@@ -105,7 +129,7 @@ def _check_exp(ctx, tag, where, U, V, N):
     except Unsupported as e:
         ctx.error(f"{tag}: exp table", where, str(e))
         return
-    ok = lo == 2 * N + 1
+    ok = lo == 2 * N + 1 or _double_exact(V + U, V - U, _exp_trunc(2 * N + 1), N)
     ctx.check(ok, f"{tag}: (V+U)/(V-U) = exp(x) + O(x^{2*N+1}) exactly (diagonal Pade [{N}/{N}])", where,
               None if ok else {"first non-zero residual order": lo, "expected": 2 * N + 1})
 
@@ -121,7 +145,7 @@ def _check_int(ctx, tag, where, P, Q, N, which, scale):
     except Unsupported as e:
         ctx.error(f"{tag}: integral table", where, str(e))
         return
-    ok = lo == 2 * N + 1
+    ok = lo == 2 * N + 1 or _double_exact(P, Q, F._R(scale) * phi, N)
     nm = "sum x^k/(k+1)!" if which == 1 else "sum x^k/((k+2) k!)"
     ctx.check(ok, f"{tag}: P/Q = scale * {nm} + O(x^{2*N+1}) exactly ([{N}/{N}] approximant of the documented series)", where,
               None if ok else {"first non-zero residual order": lo, "expected": 2 * N + 1, "deg P": dP, "deg Q": dQ})
